@@ -22,9 +22,11 @@ def run(rep, tier):
     nparts = xh.write_module("hC04_names", H.names_parts_source(16))
     targets = [f"{parts}.check_gen_{ii}_{a}{c}" for ii in range(len(H.INPUTS)) for a in "01" for c in "01"]
     targets += [f"{nparts}.check_names_p{p}" for p in range(16)]
+    targets.append(f"{MOD}.twin_documented_refusal_reached")
     res = xh.run_targets(targets, timeout=900 if tier == "quick" else 3000, env_extra=env)
     xh.fold(rep, parts, [r for r in res if r.target.startswith(parts)])
     xh.fold(rep, nparts, [r for r in res if r.target.startswith(nparts)])
+    xh.fold(rep, MOD, [r for r in res if r.target.startswith(MOD)])
     rep.coverage.update({
         "evaluations": len(res), "distinct_nontrivial": len(res), "exhaustive": all(r.status in ("confirmed", "counterexample") for r in res),
         "rule": f"{len(H.INPUTS)} construct-covering inputs (abstract selections+fragments, wrapper stacks, input wrappers/defaults/recursion/name stress, custom roots + interfaces implementing interfaces + subscriptions, custom scalars + mixins + files_to_include, Upload) x symbolic configuration (snake, async, OpenTelemetry, include_all_inputs, include_all_enums, custom operations, 3 comment modes, custom module/class names = 384 combinations each); {len(H.NAME_CASES)} name-stress schemas x snake on/off (keywords, pydantic/Enum-reserved names, names of imported symbols as type/enum/input/fragment/variable/operation names). Oracle: generation succeeds or is a documented refusal; every file compiles; the package and every module import in a clean module namespace with all pydantic models complete; __all__ == names re-exported by __init__; reported file list == files written",
